@@ -491,6 +491,9 @@ func runMaster(prop, tier string, seed uint64, workers int, tc tierCfg, evidence
 	if devNoMin {
 		for _, r := range unknown {
 			fmt.Printf("NEW %s x%d scenario=%s seed=%d cell=%d\n", r.Viols[0].Sig, agg.ViolCount[r.Viols[0].Sig], r.Scenario, r.Seed, r.Cell)
+			if os.Getenv("SIMRUN_VERBOSE") != "" {
+				fmt.Printf("    %s\n", firstLines(r.Viols[0].Msg, 45))
+			}
 		}
 		if len(unknown) > 0 {
 			exit = 3
